@@ -360,6 +360,11 @@ def run_case(case, refdir=None, keep_log=False):
                         probes["raised_halfway"] += 1
             final_ok = (violation is None and outcomes and outcomes[-1][:2] == ["write", "ok"]
                         and len(outcomes) >= 2 and outcomes[-2][:2] == ["regrid", "ok"])
+            psi_resid = None
+            if final_ok and case.get("check_psi"):
+                from .faultsim import opsi
+
+                psi_resid = opsi(gridio.read_grid(hist_path), mesh)
             eq = mesh = None
         status = "compared"
         msg = None
@@ -396,8 +401,10 @@ def run_case(case, refdir=None, keep_log=False):
                                  "detail": f"{len(bad)} variables differ from the mesh built "
                                            f"from scratch with the final settings, e.g. "
                                            f"{bad[:3]}"}
-        return _result(case, sim, outcomes, violation, probes, observed, worst_endpoint,
-                       status=status, msg=msg)
+        out = _result(case, sim, outcomes, violation, probes, observed, worst_endpoint,
+                      status=status, msg=msg)
+        out["psi"] = psi_resid
+        return out
     finally:
         shutil.rmtree(d, ignore_errors=True)
 
